@@ -1,2 +1,77 @@
-(** placeholder while the harness is developed; replaced by the theorems *)
-From SP Require Import Design.Flat Design.Layout.
+(** C26 - Block constraints apply per repetition; combinator constraints apply globally.
+
+    The theorems are about [Layout.map_block_trial_ranges] (Design/Layout.v), the
+    model of [MultiCrossBlockRepeat.map_block_trial_ranges] (cross_block.py) that
+    every block-level constraint uses to find the trial ranges it applies to;
+    harness/props/c26.py checks on every run that the real function returns
+    literally the same ranges on the flat record of generated designs, and that
+    those ranges are the documented scope of each constraint.
+
+    A constraint given to a block that is later combined by Repeat / Merge / Nest
+    carries the geometry [g] of its own block ([within_block]: its trial count
+    [g_trials g] including [g_preamble g] preamble trials); a constraint given to
+    the combinator carries the geometry of the combined block, or [None].
+    On the pinned tree the ends of the windows were not clamped to the trial count
+    (finding "ranges:overrun", repaired in /repo commit 2f184ec); the statements
+    below are about the repaired function. *)
+From Coq Require Import List Arith.
+From SP Require Import Design.Flat Design.Layout Design.RangesProofs Design.LayoutExamples.
+Import ListNotations.
+
+(** Block-level constraints: the windows are exactly
+      [ j*step, min(j*step + g_trials g, T) )   for j = 0, 1, ... while j*step < T - g_preamble g,
+    with step = g_trials g - g_preamble g: one window per repetition, each
+    including the preamble trials that precede the repetition. *)
+Theorem C26_ranges_spec :
+  forall (fb : flat) (g : geometry),
+    g_preamble g < g_trials g ->
+    fl_alignment fb <> PostPreamble ->
+    exists n,
+      map_block_trial_ranges fb (Some g)
+      = Some (map (fun j => (j * (g_trials g - g_preamble g),
+                             Nat.min (j * (g_trials g - g_preamble g) + g_trials g) (fl_trials fb)))
+                  (seq 0 n))
+      /\ (forall j, j < n <-> j * (g_trials g - g_preamble g) < fl_trials fb - g_preamble g).
+Proof. exact ranges_spec. Qed.
+Print Assumptions C26_ranges_spec.
+
+(** Combinator-level constraints on the outermost block (no geometry): the whole sequence. *)
+Theorem C26_ranges_none :
+  forall fb : flat, 0 < fl_trials fb -> map_block_trial_ranges fb None = Some [(0, fl_trials fb)].
+Proof. exact ranges_none. Qed.
+Print Assumptions C26_ranges_none.
+
+(** Every window is a non-empty trial range inside the sequence. *)
+Theorem C26_ranges_inside :
+  forall (fb : flat) (g : geometry) rs s e,
+    g_preamble g < g_trials g ->
+    fl_alignment fb <> PostPreamble ->
+    map_block_trial_ranges fb (Some g) = Some rs ->
+    In (s, e) rs -> s < e /\ e <= fl_trials fb.
+Proof. exact ranges_inside. Qed.
+Print Assumptions C26_ranges_inside.
+
+(** Every trial lies in some window. *)
+Theorem C26_ranges_cover :
+  forall (fb : flat) (g : geometry) rs t,
+    g_preamble g < g_trials g ->
+    g_preamble g < fl_trials fb ->
+    fl_alignment fb <> PostPreamble ->
+    map_block_trial_ranges fb (Some g) = Some rs ->
+    t < fl_trials fb ->
+    exists s e, In (s, e) rs /\ s <= t < e.
+Proof. exact ranges_cover. Qed.
+Print Assumptions C26_ranges_cover.
+
+(** The hypotheses are met by the flat record of
+    Repeat(CrossBlock([f, t], [f], [AtMostKInARow(1, (t, "same"))]), [MinimumTrials(5)]):
+    2-trial repetitions in a 5-trial sequence, the last one partial. *)
+Example C26_example_partial_last_repetition :
+  g_preamble ex_geom < g_trials ex_geom /\ fl_alignment ex_repeat <> PostPreamble /\
+  map_block_trial_ranges ex_repeat (Some ex_geom) = Some [(0, 2); (2, 4); (4, 5)].
+Proof. split; [cbn; repeat constructor | split; [discriminate | reflexivity]]. Qed.
+
+(** with one preamble trial (3-trial block, repetitions of 2): windows overlap by the preamble *)
+Example C26_example_preamble :
+  map_block_trial_ranges ex_repeat (Some ex_geom_pre) = Some [(0, 3); (2, 5)].
+Proof. reflexivity. Qed.
